@@ -13,14 +13,28 @@ TS_MAX = 253402207200999999999   # jiff Timestamp::MAX (corpus 01/02: regression
 
 
 # ---------------------------------------------------------------- time stamps
-def fmt_ts(r, ns, allow_date=True):
-    """an ISO-8601 text (one of the accepted forms, chosen at random) denoting the instant ns (UTC default zone)"""
+# the journal zone of the case being generated: kernel.timestamp.timezone offset (minutes) and default-time
+# (seconds of the day). A stamp without zone denotes civil time in that zone; a date alone is completed with
+# the default time. So the instant of a zone-less stamp = civil time - offset (date only: + default time).
+ZONE = {"off": 0, "def": 0}
+ZONES = [120, -300, 330, -210, 60, 765, -600, 840]
+DEFTIMES = [12 * 3600 + 34 * 60 + 56, 6 * 3600, 23 * 3600 + 59 * 60 + 59, 1]
+
+
+def fmt_ts(r, ns, allow_date=True, zoneless=None):
+    """an ISO-8601 text (one of the accepted forms, chosen at random) denoting the instant ns, given the journal
+    zone ZONE. zoneless=True forces a form without zone (date / local), False an explicit zone."""
     secs, frac = divmod(ns, 10 ** 9)
-    styles = ["local", "Z", "off"]
-    if frac == 0 and secs % 86400 == 0 and allow_date:
-        styles += ["date", "date"]
+    zl = ["local", "local"]
+    if frac == 0 and (secs + ZONE["off"] * 60 - ZONE["def"]) % 86400 == 0 and allow_date:
+        zl += ["date", "date", "date"]
+    styles = zl + ["Z", "off"]
+    if zoneless is True:
+        styles = zl
+    elif zoneless is False:
+        styles = ["Z", "off"]
     st = r.choice(styles)
-    off = 0
+    off = ZONE["off"] if st in ("local", "date") else 0
     if st == "off":
         off = r.choice([0, 60, -300, 330, 345, -570, 840, -720, 1])
     dt = datetime.datetime(1970, 1, 1) + datetime.timedelta(seconds=secs + off * 60)
@@ -42,8 +56,9 @@ def fmt_ts(r, ns, allow_date=True):
 
 
 def anchors(r):
+    # the first anchors are instants which a date alone denotes in the journal zone (civil midnight + default time)
     base = (datetime.datetime(r.choice([2023, 2024, 2024, 2025]), r.randint(1, 12), r.randint(1, 28)) -
-            datetime.datetime(1970, 1, 1)).days * DAY
+            datetime.datetime(1970, 1, 1)).days * DAY + (ZONE["def"] - ZONE["off"] * 60) * 10 ** 9
     out = [base]
     for _ in range(r.randint(1, 4)):
         k = r.random()
@@ -60,12 +75,16 @@ def around(r, anc):
     """an instant equal to an anchor, 1 ns around it, or well before / after all of them"""
     k = r.random()
     a = r.choice(anc)
-    if k < 0.45:
+    if k < 0.41:
         return a
-    if k < 0.6:
+    if k < 0.54:
         return a - 1
-    if k < 0.75:
+    if k < 0.67:
         return a + 1
+    if k < 0.71:
+        return a - 10 ** 9
+    if k < 0.75:
+        return a + 10 ** 9
     if k < 0.85:
         return min(anc) - r.randint(1, 400) * DAY
     if k < 0.95:
@@ -186,6 +205,8 @@ def file_text(r, ents):
 
 
 def gen_case(r):
+    ZONE["off"] = r.choice(ZONES) if r.random() < 0.5 else 0
+    ZONE["def"] = r.choice(DEFTIMES) if r.random() < 0.35 else 0
     anc = anchors(r)
     comms = r.sample(POOL, r.choice([0, 1, 2, 2, 3, 3, 4]))
     k = r.random()
@@ -202,10 +223,11 @@ def gen_case(r):
         tags.append("duplicate-keys")
     ents = gen_entries(r, comms, tgt, anc, self_pair, dups)
     c = {"lt": lt, "rc": tgt, "before": None, "before_ns": None, "entries": ents,
-         "txns": gen_journal(r, comms, anc), "tags": tags, "src": "gen"}
+         "txns": gen_journal(r, comms, anc), "tags": tags, "src": "gen", "tz_off": ZONE["off"], "deftime": ZONE["def"]}
     if lt == "given-time":
+        # the cut-off: mostly written without zone (date only / local date-time), i.e. to be read in the journal zone
         c["before_ns"] = around(r, sorted(set(anc + [e["ns"] for e in ents])))
-        c["before"] = fmt_ts(r, c["before_ns"])
+        c["before"] = fmt_ts(r, c["before_ns"], zoneless=(True if r.random() < 0.65 else None))
     k = r.random()
     if k < 0.02:
         c["rc"] = None; tags.append("no-report-commodity")
@@ -240,7 +262,11 @@ def request(c, text):
     if c["before"] is not None:
         ov["before_time"] = c["before"]
     smin, smax = J.scale_for(text + str(c.get("journal") or c.get("text") or ""))
-    return {"conf": {"toml": J.make_toml(price=price, rcomm=rcomm, smin=smin, smax=smax), "pricedb": text}, "overlaps": ov,
+    off, dft = c.get("tz_off") or 0, c.get("deftime") or 0
+    tz = 'name = "UTC"' if off == 0 else 'offset = "%s%02d:%02d"' % ("+" if off >= 0 else "-", abs(off) // 60, abs(off) % 60)
+    deftime = "%02d:%02d:%02d" % (dft // 3600, dft // 60 % 60, dft % 60)
+    return {"conf": {"toml": J.make_toml(price=price, rcomm=rcomm, smin=smin, smax=smax, tz=tz, deftime=deftime), "pricedb": text},
+            "overlaps": ov,
             "inputs": [{"text": c["journal"]}],
             "ops": [{"op": "txns"}, {"op": "register"}, {"op": "balance"}, {"op": "pricectx"}, {"op": "pricedb"}]}
 
@@ -325,7 +351,7 @@ def load_corpus():
             if f.endswith(".json"):
                 c = json.load(open(os.path.join(cdir, f)))
                 c["src"] = "corpus/" + f
-                c.setdefault("tags", [])
+                c.setdefault("tags", []); c.setdefault("tz_off", 0); c.setdefault("deftime", 0)
                 for e in c["entries"]:
                     e["rate"] = tuple(e["rate"])
                 cases.append(c)
@@ -335,9 +361,10 @@ def load_corpus():
 def replay_obj(c, what_impl):
     return {"lookup_type": c["lt"], "report_commodity": c["rc"], "before_time": c["before"], "price_file": c["file_text"],
             "journal": c["journal"], "tags": c["tags"], "source": c["src"], "implementation_output": what_impl,
-            "case": {k: c[k] for k in ("lt", "rc", "before", "before_ns", "entries", "journal", "file_text", "tags")},
+            "journal_timezone_offset_minutes": c.get("tz_off", 0), "default_time_seconds": c.get("deftime", 0),
+            "case": {k: c.get(k) for k in ("lt", "rc", "before", "before_ns", "entries", "journal", "file_text", "tags", "tz_off", "deftime")},
             "replay_hint": "tackler.toml: [price] db-path=prices.db lookup-type=<lookup_type>, [report] commodity=<report_commodity>; "
-                           "--price.before <before_time>; reports register/balance; ./check C07 --replay <this file>"}
+                           "kernel.timestamp timezone offset / default-time as given; --price.before <before_time>; reports register/balance; ./check C07 --replay <this file>"}
 
 
 def evaluate(run, cases):
@@ -457,6 +484,9 @@ def main(run):
     run.cov["distinct_nontrivial"] = len(distinct)
     run.cov["rule"] = ("corpus + seeded cases: 0-4 commodities, pairs into the report commodity plus inverse / chained / unrelated pairs, "
                        "0-6 lines per pair in shuffled order with date-only / local / Z / offset / fractional time stamps, comments and blank lines; "
+                       "journal zone UTC or an offset (+02:00, -05:00, +05:30, -03:30, +12:45, ...) and default-time 00:00:00 or not, zone-less stamps "
+                       "(entries, transactions and mostly the given-time cut-off) denoting civil time in that zone, anchors on the instants a bare date denotes, "
+                       "1 ns / 1 s around them; "
                        "transaction and given-time instants equal to, 1 ns around, before and after the entries; every posting on its own account so that "
                        "register totals and balance sums are the converted postings; all three lookups and none; each distinct-key file is run a second "
                        "time with its lines permuted; separate streams: self pair of the report commodity (F12/F21, fixed), duplicate keys (statistics only), configuration errors. "
